@@ -715,6 +715,9 @@ pub fn run_check(check: &dyn Erased, tier: Tier) -> i32 {
         eprintln!("cannot write evidence: {e}");
         return 2;
     }
+    if reported > 0 {
+        exit = 1;
+    }
     println!(
         "{}: {} evaluations ({} runs), {} distinct non-trivial traces, {} simulated s, {:.1}s wall, violations={} known={}",
         check.id(),
